@@ -147,8 +147,8 @@ class Run:
     # --- finish -----------------------------------------------------------
     def finish(self) -> int:
         wall = time.time() - self.t0
-        EVID.mkdir(exist_ok=True)
-        REPLAYS.mkdir(exist_ok=True)
+        EVID.mkdir(parents=True, exist_ok=True)
+        REPLAYS.mkdir(parents=True, exist_ok=True)
         out_lines = []
         seen = set()
         for v in self.violations:
